@@ -3,6 +3,7 @@ import HappyProofs.C19.WinAssign
 import HappyProofs.C19.WinStep
 import HappyProofs.C19.WinSession
 import HappyProofs.C19.WinSessSep
+import HappyProofs.C19.WinSessRun
 /-!
 C19 extension family `Win` — property theorems for the stream-processor windows
 (`streaming/stream_processor.py` after `fixes/C19-win-*.diff`).
@@ -42,12 +43,39 @@ theorem window_records_accounted_once (cfg : Cfg) (sched : List Line) (hk : cfg.
     judgeCore cfg {} (sched.zip (run cfg {} sched)) = none :=
   judge_run_ok cfg hk hs sched {} {} R_init hl
 
-/-- the full statement: all window kinds (sessions included) against the core *and* extra clauses
-(`active_windows`, session bounds / gap-connectedness / maximality / closure).  Not proved: see
-`window_records_accounted_once` (tumbling, sliding; core clauses) and `session_records_conserved`. -/
-def window_records_accounted_once_full : Prop :=
-  ∀ (cfg : Cfg) (sched : List Line), (cfg.kind = 0 ∨ cfg.kind = 2 ∨ 0 < cfg.slide) → legit cfg {} sched = true →
-    judgeSafety cfg {} (sched.zip (run cfg {} sched)) = none
+/-- **The full statement**: every window kind the library has (tumbling, sliding, session), every policy /
+lateness / schedule, against the core *and* extra clauses of the judge (`judgeSafety`): late classification,
+counters, watermark, results = records owed, never twice, never dropped, side output, `active_windows`; for
+sessions: an emitted session consists of pending records of its key, spans `[min et, max et + gap]`, is
+gap-connected and maximal, no closed session is left, `active_windows` = number of gap groups.
+For sessions the judge recognises the members of a result by record id, hence the hypothesis that the schedule's
+record ids are distinct (`session_judge_needs_distinct_ids` shows it cannot be dropped); tumbling / sliding need none. -/
+theorem window_records_accounted_once_full (cfg : Cfg) (sched : List Line)
+    (hs : cfg.kind = 0 ∨ cfg.kind = 2 ∨ 0 < cfg.slide) (hl : legit cfg {} sched = true)
+    (hid : cfg.kind = 2 → (procIds sched).Nodup) :
+    judgeSafety cfg {} (sched.zip (run cfg {} sched)) = none := by
+  by_cases hk : cfg.kind = 2
+  · exact judge_safety_run_sess cfg hk sched {} {} (RS_init cfg.gap) hl (hid hk) (by simp)
+  · exact judge_safety_run cfg hk (by omega) sched {} {} R_init hl
+
+/-- all window kinds against the core clauses — no hypothesis on record ids -/
+theorem window_core_clauses_all_kinds (cfg : Cfg) (sched : List Line)
+    (hs : cfg.kind = 0 ∨ cfg.kind = 2 ∨ 0 < cfg.slide) (hl : legit cfg {} sched = true) :
+    judgeCore cfg {} (sched.zip (run cfg {} sched)) = none := by
+  by_cases hk : cfg.kind = 2
+  · exact judge_core_run_sess cfg hk sched {} {} R0_init hl
+  · exact judge_run_ok cfg hk (by omega) sched {} {} R_init hl
+
+/-- two session records with the same id: the judge cannot tell which of them a result with that id carries and
+rejects the model's (correct) transcript — the distinct-ids hypothesis of the full statement is needed -/
+theorem session_judge_needs_distinct_ids :
+    legit { kind := 2, size := 0, slide := 0, gap := 2, late := 0, policy := 0, side := false, interval := 1 } {}
+      [⟨0, .proc ⟨0, 0, 1, 1⟩⟩, ⟨0, .proc ⟨0, 0, 10, 1⟩⟩, ⟨1, .wmA true 5⟩, ⟨1, .wmB⟩] = true ∧
+    judgeSafety { kind := 2, size := 0, slide := 0, gap := 2, late := 0, policy := 0, side := false, interval := 1 } {}
+      (([⟨0, .proc ⟨0, 0, 1, 1⟩⟩, ⟨0, .proc ⟨0, 0, 10, 1⟩⟩, ⟨1, .wmA true 5⟩, ⟨1, .wmB⟩] : List Line).zip
+        (run { kind := 2, size := 0, slide := 0, gap := 2, late := 0, policy := 0, side := false, interval := 1 } {}
+          [⟨0, .proc ⟨0, 0, 1, 1⟩⟩, ⟨0, .proc ⟨0, 0, 10, 1⟩⟩, ⟨1, .wmA true 5⟩, ⟨1, .wmB⟩])) ≠ none := by
+  decide
 
 /-! non-vacuity: a run with two keys, a window emitted, re-opened by a record inside the allowed lateness
 and emitted again with both records, a late record sent to the side output and received -/
@@ -144,6 +172,8 @@ example : (run sessCfg {} sessSched).filterMap (fun o => match o with | .emits _
     [[⟨0, 7, 12, 3, 6, [0, 1, 2]⟩]] := by decide
 
 example : judgeFull sessCfg {} (sessSched.zip (run sessCfg {} sessSched)) = none := by decide
+
+example : legit sessCfg {} sessSched = true ∧ (procIds sessSched).Nodup := by decide
 
 /-- two sessions of one key that stay apart: 1 and 5 with gap 2 -/
 example : ((finalState sessCfg {} [⟨0, .proc ⟨0, 0, 5, 1⟩⟩, ⟨0, .proc ⟨1, 0, 1, 2⟩⟩]).wins.map fun w => (w.s, w.e)) = [(1, 3), (5, 7)] := by
